@@ -3,6 +3,7 @@
 -/
 import TradingVerif.Lemmas.Valuation
 import TradingVerif.Lemmas.Settled
+import TradingVerif.Lemmas.Accounts
 set_option linter.unusedSectionVars false
 set_option linter.unusedVariables false
 set_option linter.unusedSimpArgs false
